@@ -243,7 +243,9 @@ def evaluate(prop, op, inputs, res, stream_name, keep_samples=2):
         res.seen.add(h)
         if isinstance(rep, Exc):
             raise Infra('driver rejected request (%s) for %s input %r obs %r' % (rep.name, op, inp, o))
-        model_obs, holds_impl, holds_model = rep
+        model_obs, holds_impl, holds_model = rep[0], rep[1], rep[2]
+        if len(rep) > 3:
+            res.hist['obs-outside-type'] = res.hist.get('obs-outside-type', 0) + 1
         try:
             nt = prop.nontrivial(op, inp, o)
         except Exception:
